@@ -36,6 +36,7 @@ package bcl
 //@ invariant tok_range (p *parser): 0 <= p.prev.typ && p.prev.typ < tMAX && 0 <= p.current.typ && p.current.typ < tMAX
 //@ invariant fin (p *parser): (g.lastfin ==> p.current.typ <= tEOF) && !g.lasterr
 //@ invariant [C17] panic_err (p *parser): p.panicMode ==> p.hadError
+//@ invariant [C17] lexfail_err (p *parser): p.hadLexFail ==> p.hadError
 //@ invariant [C17] diag_err (p *parser): (p.hadError <==> g.diags > 0) && g.diags >= 0
 //@ invariant blocks_open (p *parser): p.hadError || g.bd >= 0
 //@ invariant targets_in_code (p *parser): p.hadError || g.maxtarget <= len(p.prog.code)
@@ -80,6 +81,7 @@ package bcl
 //@   ensures closed_after_fin: !result1 ==> old(g.lastfin)
 //@   ensures fail_follows_err: result1 && old(g.lasterr) ==> result0.typ == tFAIL
 //@   ensures nothing_after_a_finalizer: result1 ==> !old(g.lastfin)
+//@   ensures fail_only_after_an_error: result1 && result0.typ == tFAIL ==> old(g.lasterr)
 //@   ensures [C08] positions_are_offsets: result1 ==> result0.pos >= 0
 //@   ensures token_link: g.consumed == g.ev_recv_tokens && g.consumed >= 0 && (g.consumed == 0 ==> !g.lastfin && !g.lasterr) && (g.consumed > 0 ==> g.lastfin == (g.ev_val_tokens.typ <= tEOF) && g.lasterr == (g.ev_val_tokens.typ == tERR))
 //@   modifies g.ev_recv_tokens, g.ev_val_tokens
@@ -92,6 +94,7 @@ package bcl
 //@   promise [C11,C06] token_well_formed: at tokens: 0 <= $msg.typ && $msg.typ < tMAX && ($msg.typ == tERR ==> $msg.err != nil) && $msg.pos >= 0
 //@   promise [C11,C06] fail_follows_error: at tokens: $n > 0 && $prev.typ == tERR ==> $msg.typ == tFAIL
 //@   promise [C11,C06] nothing_after_a_finalizer: at tokens: $n > 0 ==> $prev.typ > tEOF
+//@   promise [C11,C06] fail_only_after_an_error: at tokens: $msg.typ == tFAIL ==> $n > 0 && $prev.typ == tERR
 //@   promise [C11,C06] closed_only_after_a_finalizer: at close tokens: $n > 0 && $prev.typ <= tEOF
 //@   ensures result != nil
 //@   modifies g.ev_go
@@ -210,7 +213,7 @@ package bcl
 //@   ensures fin_out: (g.lastfin ==> p.current.typ <= tEOF) && !g.lasterr
 //@   loop 1 invariant invs(p)
 //@   loop 1 invariant (g.lastfin ==> p.current.typ <= tEOF) && (g.lasterr ==> p.current.typ == tERR) && (p.panicMode == old(p.panicMode) || g.lasterr)
-//@   loop 1 invariant p.prev == old(p.current) && g.consumed >= old(g.consumed)
+//@   loop 1 invariant p.prev == old(p.current) && g.consumed >= old(g.consumed) && (g.lasterr ==> p.hadError)
 //@   loop 1 invariant g.consumed > old(g.consumed) || g.lastfin == old(g.lastfin)
 //@   loop 1 increases g.consumed
 //
@@ -294,6 +297,10 @@ package bcl
 //@   loop 1 invariant forall j int :: p.scope.localCount <= j && j < old(p.scope.localCount) ==> p.scope.locals[j].depth > p.scope.depth
 //
 //@ func (*parser).resolveIdent
+//@   requires [C17] called_on_the_identifier_token: p.hadError || p.prev.typ != tSEMICOLON
+//@   ensures [C17] no_terminator_inside_an_expression: p.hadError || p.prev.typ != tSEMICOLON
+//@   assert [C17,C01] assignment_is_right_associative: at expr.parsePrecedence#1: $prec == precAssign
+//@   assert [C17,C01] the_assigned_value_is_a_full_expression: at parsePrecedence#1: $prec == precAssign
 //@   requires at_boundary: p.hadError || g.pend == F0()
 //@   ensures one_value: p.hadError || (g.sd == old(g.sd) + 1 && g.pend == F0() && g.njopen == old(g.njopen) && g.bd == old(g.bd) && g.uninit == old(g.uninit))
 //@   ensures jframe: forall o int :: o < old(len(p.prog.code)) ==> select(g.jopen, o) == old(select(g.jopen, o)) && select(g.jd, o) == old(select(g.jd, o))
@@ -307,6 +314,7 @@ package bcl
 //
 //@ group C10,C01,C06
 //@ slot parseRule.prefix (p *parser, canAssign bool)
+//@   ensures [C17] no_terminator_inside_an_expression: p.hadError || p.prev.typ != tSEMICOLON
 //@   requires self_in_table: rules[p.prev.typ].prefix == self
 //@   requires at_boundary: p.hadError || g.pend == F0()
 //@   ensures one_value: p.hadError || (g.sd == old(g.sd) + 1 && g.pend == F0() && g.njopen == old(g.njopen) && g.bd == old(g.bd) && g.uninit == old(g.uninit))
@@ -317,6 +325,7 @@ package bcl
 //@   ensures monotone: g.consumed >= old(g.consumed)
 //
 //@ slot parseRule.infix (p *parser, canAssign bool)
+//@   ensures [C17] no_terminator_inside_an_expression: p.hadError || p.prev.typ != tSEMICOLON
 //@   requires self_in_table: rules[p.prev.typ].infix == self
 //@   requires lhs_on_stack: p.hadError || (g.pend == F0() && g.sd >= p.scope.localCount - g.uninit + 1)
 //@   ensures lhs_replaced_by_result: p.hadError || (g.sd == old(g.sd) && g.pend == F0() && g.njopen == old(g.njopen) && g.bd == old(g.bd) && g.uninit == old(g.uninit))
@@ -327,6 +336,7 @@ package bcl
 //@   ensures monotone: g.consumed >= old(g.consumed)
 //
 //@ func (*parser).parsePrecedence
+//@   ensures [C17] no_terminator_inside_an_expression: p.hadError || p.prev.typ != tSEMICOLON
 //@   requires prec_range: precAssign <= prec && prec <= precUnary
 //@   requires at_boundary: p.hadError || g.pend == F0()
 //@   ensures one_value: p.hadError || (g.sd == old(g.sd) + 1 && g.pend == F0() && g.njopen == old(g.njopen) && g.bd == old(g.bd) && g.uninit == old(g.uninit))
@@ -341,6 +351,7 @@ package bcl
 //@   loop 1 invariant forall o int :: o < old(len(p.prog.code)) ==> select(g.jopen, o) == old(select(g.jopen, o)) && select(g.jd, o) == old(select(g.jd, o))
 //@   loop 1 invariant len(p.prog.code) >= old(len(p.prog.code)) && p.scope.localCount == old(p.scope.localCount) && p.scope.depth == old(p.scope.depth)
 //@   loop 1 invariant len(p.prog.constants) >= old(len(p.prog.constants)) && (forall i int :: 0 <= i && i < old(len(p.prog.constants)) ==> p.prog.constants[i] == old(p.prog.constants[i]))
+//@   loop 1 invariant [C17] p.hadError || p.prev.typ != tSEMICOLON
 //@   loop 1 invariant (g.consumed > old(g.consumed) || old(p.current.typ) <= tEOF) && g.consumed >= old(g.consumed)
 //@   loop 1 increases g.consumed
 //@   assert [C17,C02] assignment_only_at_lowest_precedence: at slot.parseRule.prefix: $canAssign == (prec <= precAssign)
@@ -387,6 +398,7 @@ package bcl
 //
 //@ group C10,C06,C17
 //@ func decl
+//@   ensures [C17] a_statement_does_not_end_with_a_terminator: p.hadError || g.consumed == old(g.consumed) || p.prev.typ != tSEMICOLON
 //@   assert [C17] var_declares_a_variable: at varDecl#1: p.prev.typ == tVAR
 //@   assert [C17] print_statement_after_print: at stmt.printStmt#1: p.prev.typ == tPRINT
 //@   assert [C17] eval_statement_after_eval: at stmt.exprStmt#1: p.prev.typ == tEVAL
@@ -406,6 +418,7 @@ package bcl
 //
 // statement dispatch (C17): which keyword leads to which statement form
 //@ func printStmt
+//@   ensures [C17] a_statement_does_not_end_with_a_terminator: p.hadError || p.prev.typ != tSEMICOLON
 //@   requires statement_boundary: g.uninit == 0 && (p.hadError || (g.pend == F0() && g.sd == p.scope.localCount))
 //@   ensures statement_boundary: g.uninit == 0 && (p.hadError || (g.pend == F0() && g.sd == p.scope.localCount))
 //@   ensures balanced: p.scope.depth == old(p.scope.depth) && p.scope.localCount == old(p.scope.localCount) && (p.hadError || (g.bd == old(g.bd) && g.njopen == old(g.njopen)))
@@ -413,6 +426,7 @@ package bcl
 //@   ensures progress: g.consumed > old(g.consumed) || old(p.current.typ) <= tEOF
 //@   assert [C17,C01] print_prints_the_expression_value: at emitOp#1: $op == opPRINT
 //@ func exprStmt
+//@   ensures [C17] a_statement_does_not_end_with_a_terminator: p.hadError || p.prev.typ != tSEMICOLON
 //@   requires statement_boundary: g.uninit == 0 && (p.hadError || (g.pend == F0() && g.sd == p.scope.localCount))
 //@   ensures statement_boundary: g.uninit == 0 && (p.hadError || (g.pend == F0() && g.sd == p.scope.localCount))
 //@   ensures balanced: p.scope.depth == old(p.scope.depth) && p.scope.localCount == old(p.scope.localCount) && (p.hadError || (g.bd == old(g.bd) && g.njopen == old(g.njopen)))
@@ -421,6 +435,8 @@ package bcl
 //@   assert [C17,C01] expression_statement_discards_its_value: at emitOp#1: $op == opPOP
 //
 //@ func blockStmt
+//@   assert [C17] a_terminator_never_follows_a_terminator: at match.advance#1: p.hadError || p.current.typ != tSEMICOLON || p.prev.typ != tSEMICOLON
+//@   ensures [C17] a_statement_does_not_end_with_a_terminator: p.hadError || p.prev.typ != tSEMICOLON
 //@   assert [C03] block_name_is_the_unquoted_literal: at Unquote#1: $s == p.prev.val && p.prev.typ == tSTR
 //@   assert [C03] block_name_constant_is_that_value: at makeConst#1: p.hadError || blockName == "" || blockName == g.unq_out
 //@   requires statement_boundary: g.uninit == 0 && (p.hadError || (g.pend == F0() && g.sd == p.scope.localCount))
@@ -436,12 +452,14 @@ package bcl
 //@   loop 1 increases g.consumed
 //
 //@ func bindStmt
+//@   ensures [C17] a_statement_does_not_end_with_a_terminator: p.hadError || p.prev.typ != tSEMICOLON
 //@   requires statement_boundary: g.uninit == 0 && (p.hadError || (g.pend == F0() && g.sd == p.scope.localCount))
 //@   ensures statement_boundary: g.uninit == 0 && (p.hadError || (g.pend == F0() && g.sd == p.scope.localCount))
 //@   ensures balanced: p.scope.depth == old(p.scope.depth) && p.scope.localCount == old(p.scope.localCount) && (p.hadError || (g.bd == old(g.bd) && g.njopen == old(g.njopen)))
 //@   ensures monotone: g.consumed >= old(g.consumed)
 //
 //@ func parse
+//@   assert [C17] a_terminator_never_follows_a_terminator: at match.advance#1: p.hadError || p.current.typ != tSEMICOLON || p.prev.typ != tSEMICOLON
 //@   ghostinit sd = 0; pend = F0(); bd = 0; uninit = 0; njopen = 0; maxtarget = 0; consumed = 0; lastfin = false; lasterr = false; diags = 0; lx_fin = false; lx_err = false; ev_close_tokens = 0; ev_bytes_inputs = 0; ev_send_tokens = 0; ev_recv_tokens = 0; bk = 2
 //@   ensures [C17] error_iff_diagnostic: ((result2 != nil) <==> g.diags > 0) && g.diags >= 0
 //@   ensures result0 != nil
